@@ -8,7 +8,7 @@ from hypothesis import strategies as hs
 from hypothesis.stateful import RuleBasedStateMachine, initialize, rule
 
 from dxv import sut, spec, trees, foreign, gen
-from dxv.engine import MachineCheck, to_jsonable
+from dxv.engine import MachineCheck, EnumCheck, to_jsonable
 
 ASSUMPTIONS = [
     'the harness deep-copies every mutable argument before handing it to '
@@ -107,7 +107,7 @@ class World(object):
                     touched = i
                     sec = self._section(t, op['path'])
 
-                    if hasattr(type(sec), op['name']):
+                    if hasattr(sec, op['name']):
                         setattr(sec, op['name'], copy.deepcopy(op['value']))
                         self._count_mutation()
             elif name == 'list_op':
@@ -139,7 +139,7 @@ class World(object):
                     observed = i
                     sec = self._section(t, op['path'])
 
-                    if hasattr(type(sec), op['name']):
+                    if hasattr(sec, op['name']):
                         v = getattr(sec, op['name'])
 
                         if v is not None:
@@ -599,6 +599,72 @@ def machine(st, target):
     return DiffXWorld
 
 
+# -- scripted histories -------------------------------------------------
+
+NO_ENCODING = (b'#diffx: version=1.0\n#.change:\n#..file:\n'
+               b'#...meta: format=json, length=9\n{"a": 1}\n')
+TWINS = (b'#diffx: encoding=utf-8, version=1.0\n#.change:\n'
+         b'#..meta: format=json, length=9\n{"a": 1}\n#..file:\n'
+         b'#...meta: format=json, length=9\n{"a": 1}\n#..file:\n'
+         b'#...meta: format=json, length=9\n{"a": 1}\n')
+OBSERVE = [{'op': 'to_bytes', 't': 0}, {'op': 'repr', 't': 0},
+           {'op': 'eq', 't': 0, 'u': 0}, {'op': 'to_bytes', 't': 0},
+           {'op': 'stats', 't': 0}, {'op': 'to_bytes', 't': 0},
+           {'op': 'repr', 't': 0}]
+
+
+def scenarios():
+    out = []
+
+    # a tree parsed from a file that declares no encoding, edited through
+    # the API at every level, then serialised and looked at
+    for path in ([-1, -1], [0, -1], [0, 0]):
+        for name, value in ASSIGNMENTS:
+            out.append([{'op': 'parse_garbage', 'data': NO_ENCODING},
+                        {'op': 'assign', 't': 0, 'path': path, 'name': name,
+                         'value': value}] + OBSERVE)
+
+    # sections whose content is byte-identical on disk, edited in place
+    for path in ([0, -1], [0, 0], [0, 1]):
+        for key, value in (('a', 2), ('new', [1]), ('a', {'deep': 1})):
+            out.append([{'op': 'parse_garbage', 'data': TWINS},
+                        {'op': 'mutate_meta', 't': 0, 'path': path,
+                         'key': key, 'value': value}] + OBSERVE)
+
+    # built, serialised, extended, serialised again
+    for tree in ({'main': {}, 'changes': [], 'via_constructor': True},
+                 {'main': {'meta': {'k': 1}},
+                  'changes': [{'attrs': {}, 'files': [{'meta': {'p': 1}}]}],
+                  'via_constructor': False}):
+        out.append([{'op': 'new', 'tree': tree}] + OBSERVE +
+                   [{'op': 'add_change', 't': 0,
+                     'attrs': {'meta': {'c': 1}}},
+                    {'op': 'to_bytes', 't': 0},
+                    {'op': 'add_file', 't': 0, 'c': 0,
+                     'attrs': {'meta': {'path': 'late'}}},
+                    {'op': 'to_bytes', 't': 0},
+                    {'op': 'add_file', 't': 0, 'c': 0,
+                     'attrs': {'meta': {'path': 'later'},
+                               'diff': b'@@ -1 +1 @@\n-a\n+b\n'}}] +
+                   OBSERVE + [{'op': 'parse', 't': 0, 'shared': True},
+                              {'op': 'parse', 't': 0, 'shared': False}] +
+                   OBSERVE)
+
+    return out
+
+
+def scenario_chunks(tier, seed):
+    n = len(scenarios())
+    return [list(range(i, n, 8)) for i in range(8)]
+
+
+def run_scenario_chunk(indices, st):
+    all_ = scenarios()
+
+    for i in indices:
+        run_case({'steps': all_[i]}, st)
+
+
 def checks():
     return [
         MachineCheck(
@@ -618,4 +684,17 @@ def checks():
                  'reachable from two sections; non-trivial = >= 2 live '
                  'trees and >= 1 mutation after a parse or default '
                  'construction'),
+        EnumCheck(
+            'scenarios', scenario_chunks, run_scenario_chunk,
+            run_case=run_case, exhaustive=False,
+            rule='scripted histories through the same world model: a tree '
+                 'parsed from a file that declares no encoding gets each of '
+                 'the 23 attribute assignments at main / change / file '
+                 'level and is then serialised, printed, compared and '
+                 'analysed repeatedly; sections whose metadata is '
+                 'byte-identical on disk are edited in place; trees are '
+                 'serialised, extended with add_change / add_file, and '
+                 'serialised and re-parsed again; same invariants after '
+                 'every step',
+            bound={'quick': 'all scripted histories', 'thorough': 'same'}),
     ]
